@@ -436,6 +436,20 @@ def opRecover (args : List String) : String :=
     | _, _, _, _ => "bad-args"
   | _ => "bad-args"
 
+/-- bruteforce <hash> <qx> <qy> <r> <s> : found? and the code; specification: the first code whose textbook recovery is Q -/
+def opBruteforce (args : List String) : String :=
+  match args with
+  | [hs, xs, ys, rs, ss] =>
+    match ofHex hs, hexNat xs, hexNat ys, scalarArg rs, scalarArg ss with
+    | some h, some x, some y, some r, some s =>
+      let (f, v) := bruteforceM h r s (x % P, y % P)
+      let sp := match [0, 1, 2, 3].find? (fun v => ecdsaRecover h r s v == some (x % P, y % P)) with
+        | some v => "true " ++ toString v
+        | none => "false 255"
+      toString f ++ " " ++ toString v ++ "\t" ++ (if r = 0 ∨ s = 0 then "=" else sp)
+    | _, _, _, _, _ => "bad-args"
+  | _ => "bad-args"
+
 def opExport (args : List String) : String :=
   match args with
   | [rs, ss, vs] =>
@@ -771,6 +785,7 @@ def runOp (line : String) : String :=
     | "sign_nonce" => opSignNonce args
     | "verify" => opVerify args
     | "recover" => opRecover args
+    | "bruteforce" => opBruteforce args
     | "export" => opExport args
     | "export_compact" => opExportCompact args
     | "parse_compact" => opParseCompact args
